@@ -50,4 +50,545 @@ theorem chunk3_take (l : List Nat) : chunk3 (l.take (l.length / 3 * 3)) = chunk3
     have h1 : chunk3 l = [] := by rw [chunk3]; exact h
     rw [h1]; rfl
 
+theorem chunk3_short (l : List Nat) (h : l.length < 3) : chunk3 l = [] := by
+  match l, h with
+  | [], _ => rfl
+  | [_], _ => rfl
+  | [_, _], _ => rfl
+  | _ :: _ :: _ :: _, h => simp at h; omega
+
+/-! ### translation succeeds on unambiguous codes with a complete table -/
+
+theorem lookupCodon_ok (t : CodonTable) (ht : t.codons.length = 64) (a b c : Nat)
+    (ha : a < 4) (hb : b < 4) (hc : c < 4) : ∃ aa, lookupCodon t [a, b, c] = .ok aa := by
+  have hlt : 16 * a + 4 * b + c < t.codons.length := by omega
+  exact ⟨t.codons[16 * a + 4 * b + c], by simp [lookupCodon, codonNumber, hlt]⟩
+
+theorem mapCodon_ok (t : CodonTable) (ht : t.codons.length = 64) (l : List Nat) (hl : ∀ c ∈ l, c < 4) :
+    ∃ prot, mapE (lookupCodon t) (chunk3 l) = .ok prot := by
+  induction l using chunk3.induct with
+  | case1 a b c rest ih =>
+    obtain ⟨ps, hps⟩ := ih fun x hx => hl x (by simp [hx])
+    obtain ⟨p, hp⟩ := lookupCodon_ok t ht a b c (hl a (by simp)) (hl b (by simp)) (hl c (by simp))
+    exact ⟨p :: ps, by rw [chunk3]; exact mapE_cons_ok _ _ _ _ _ hp hps⟩
+  | case2 l h =>
+    have h1 : chunk3 l = [] := by rw [chunk3]; exact h
+    exact ⟨[], by rw [h1]; rfl⟩
+
+/-! ### one frame -/
+
+/-- In-frame positions of a frame that starts at `pos` and has `m` complete codons. -/
+def framePositions (pos m : Nat) : List Nat := (List.range m).map fun j => pos + 3 * j
+
+theorem framePositions_succ (pos m : Nat) :
+    framePositions pos (m + 1) = pos :: framePositions (pos + 3) m := by
+  unfold framePositions
+  rw [List.range_succ_eq_map]
+  simp only [List.map_cons, List.map_map, Nat.mul_zero, Nat.add_zero]
+  congr 1
+  apply List.map_congr_left
+  intro j _
+  simp only [Function.comp]; omega
+
+theorem orfScan_eq (t : CodonTable) (stopCode metCode : Nat) (metStart : Bool) (code : List Nat)
+    (l : List Nat) (pos : Nat) (prot : List Nat) (hd : code.drop pos = l)
+    (hp : mapE (lookupCodon t) (chunk3 l) = .ok prot) :
+    orfScan t stopCode metCode metStart pos (chunk3 l) prot =
+      (framePositions pos (chunk3 l).length).filterMap (orfAt t stopCode metCode metStart code) := by
+  induction l using chunk3.induct generalizing pos prot with
+  | case1 a b c rest ih =>
+    rw [chunk3] at hp ⊢
+    obtain ⟨p, ps, hp1, hps, rfl⟩ := mapE_cons_inv _ _ _ _ hp
+    have hd' : code.drop (pos + 3) = rest := by
+      rw [← List.drop_drop, hd]; rfl
+    have hat : orfAt t stopCode metCode metStart code pos =
+        if isStart t [a, b, c] then some (mkOrf stopCode metCode metStart pos (p :: ps)) else none := by
+      have hpf : protFrom t code pos = .ok (p :: ps) := by
+        unfold protFrom mapCodonCodes
+        rw [hd, chunk3]; exact hp
+      unfold orfAt
+      rw [hpf, hd, chunk3]
+    simp only [List.length_cons, framePositions_succ, List.filterMap_cons, hat, orfScan]
+    rw [ih (pos + 3) ps hd' hps]
+    by_cases hs : isStart t [a, b, c] = true
+    · simp [hs]
+    · simp [hs]
+  | case2 l h =>
+    have h1 : chunk3 l = [] := by rw [chunk3]; exact h
+    rw [h1]
+    simp [orfScan, framePositions]
+
+theorem orfsFrame_eq (t : CodonTable) (ht : t.codons.length = 64) (stopCode metCode : Nat) (metStart : Bool)
+    (code : List Nat) (hc : ∀ c ∈ code, c < 4) (shift : Nat) :
+    orfsFrame t stopCode metCode metStart code shift =
+      .ok ((framePositions shift ((code.length - shift) / 3)).filterMap (orfAt t stopCode metCode metStart code)) := by
+  unfold orfsFrame
+  have hlen : (code.drop shift).length = code.length - shift := by simp
+  have hframe : chunk3 ((code.drop shift).take ((code.length - shift) / 3 * 3)) = chunk3 (code.drop shift) := by
+    rw [← hlen]; exact chunk3_take _
+  simp only [hframe, mapCodonCodes]
+  obtain ⟨prot, hprot⟩ := mapCodon_ok t ht (code.drop shift) fun c hcm => hc c (List.mem_of_mem_drop hcm)
+  rw [hprot]
+  simp only
+  rw [orfScan_eq t stopCode metCode metStart code (code.drop shift) shift prot rfl hprot, chunk3_length, hlen]
+
+/-! ### ordering by start position -/
+
+/-- The order `np.argsort` of the start positions realises. -/
+def orfLe (a b : Orf) : Prop := a.start ≤ b.start
+
+instance : DecidableRel orfLe := fun a b => inferInstanceAs (Decidable (a.start ≤ b.start))
+instance : Std.Total orfLe := ⟨fun a b => Nat.le_total a.start b.start⟩
+instance : IsTrans Orf orfLe := ⟨fun _ _ _ h1 h2 => Nat.le_trans h1 h2⟩
+
+theorem insertOrf_eq (x : Orf) (l : List Orf) : insertOrf x l = l.orderedInsert orfLe x := by
+  induction l with
+  | nil => rfl
+  | cons y ys ih =>
+    simp only [insertOrf, List.orderedInsert_cons, ih]
+    rfl
+
+theorem sortOrfs_eq (l : List Orf) : sortOrfs l = l.insertionSort orfLe := by
+  induction l with
+  | nil => rfl
+  | cons x xs ih => simp only [sortOrfs, List.insertionSort_cons, ih, insertOrf_eq]
+
+/-- Two members of a list strictly ascending in `start` with the same start are the same member. -/
+theorem eq_of_start_eq (G : List Orf) (hs : G.Pairwise fun a b => a.start < b.start) :
+    ∀ a ∈ G, ∀ b ∈ G, a.start = b.start → a = b := by
+  induction G with
+  | nil => intro a ha; simp at ha
+  | cons g gs ih =>
+    obtain ⟨hg, hgs⟩ := List.pairwise_cons.mp hs
+    intro a ha b hb heq
+    rcases List.mem_cons.mp ha with rfl | ha' <;> rcases List.mem_cons.mp hb with rfl | hb'
+    · rfl
+    · have := hg b hb'; omega
+    · have := hg a ha'; omega
+    · exact ih hgs a ha' b hb' heq
+
+/-- Sorting any permutation of a list that is strictly ascending in `start` gives that list. -/
+theorem sortOrfs_eq_of_perm (L G : List Orf) (hp : L.Perm G)
+    (hs : G.Pairwise fun a b => a.start < b.start) : sortOrfs L = G := by
+  rw [sortOrfs_eq]
+  have hperm : (L.insertionSort orfLe).Perm G := (List.perm_insertionSort orfLe L).trans hp
+  refine List.Perm.eq_of_pairwise (le := orfLe) ?_ (List.pairwise_insertionSort orfLe L)
+    (hs.imp fun h => Nat.le_of_lt h) hperm
+  intro a b ha hb hab hba
+  exact eq_of_start_eq G hs a (hperm.subset ha) b hb (Nat.le_antisymm hab hba)
+
+/-! ### the three frames together cover every position once -/
+
+theorem mem_framePositions {pos m s : Nat} : s ∈ framePositions pos m ↔ ∃ j, j < m ∧ s = pos + 3 * j := by
+  unfold framePositions
+  simp only [List.mem_map, List.mem_range]
+  constructor
+  · rintro ⟨j, hj, rfl⟩; exact ⟨j, hj, rfl⟩
+  · rintro ⟨j, hj, rfl⟩; exact ⟨j, hj, rfl⟩
+
+theorem nodup_framePositions (pos m : Nat) : (framePositions pos m).Nodup := by
+  unfold framePositions
+  have : ((List.range m).map fun j => pos + 3 * j).Pairwise (· < ·) :=
+    List.Pairwise.map _ (fun a b h => by omega) List.pairwise_lt_range
+  exact this.imp fun h => Nat.ne_of_lt h
+
+theorem frames_perm (n : Nat) :
+    (framePositions 0 ((n - 0) / 3) ++ framePositions 1 ((n - 1) / 3) ++ framePositions 2 ((n - 2) / 3)).Perm
+      (List.range (n - 2)) := by
+  rw [List.perm_ext_iff_of_nodup ?_ List.nodup_range]
+  · intro s
+    simp only [List.mem_append, mem_framePositions, List.mem_range]
+    constructor
+    · rintro ((⟨j, hj, rfl⟩ | ⟨j, hj, rfl⟩) | ⟨j, hj, rfl⟩) <;> omega
+    · intro hs
+      have h3 : s % 3 = 0 ∨ s % 3 = 1 ∨ s % 3 = 2 := by omega
+      rcases h3 with h | h | h
+      · exact .inl (.inl ⟨s / 3, by omega, by omega⟩)
+      · exact .inl (.inr ⟨s / 3, by omega, by omega⟩)
+      · exact .inr ⟨s / 3, by omega, by omega⟩
+  · rw [List.nodup_append, List.nodup_append]
+    refine ⟨⟨nodup_framePositions _ _, nodup_framePositions _ _, ?_⟩, nodup_framePositions _ _, ?_⟩
+    · intro a ha b hb
+      obtain ⟨j, _, rfl⟩ := mem_framePositions.mp ha
+      obtain ⟨j', _, rfl⟩ := mem_framePositions.mp hb
+      omega
+    · intro a ha b hb
+      obtain ⟨j', _, rfl⟩ := mem_framePositions.mp hb
+      rcases List.mem_append.mp ha with ha | ha <;> obtain ⟨j, _, rfl⟩ := mem_framePositions.mp ha <;> omega
+
+theorem orfAt_start {t : CodonTable} {stopCode metCode : Nat} {metStart : Bool} {code : List Nat} {s : Nat} {o : Orf}
+    (h : orfAt t stopCode metCode metStart code s = some o) : o.start = s := by
+  unfold orfAt at h
+  split at h
+  · split at h
+    · simp only [Option.some.injEq] at h; subst h; rfl
+    · simp at h
+  · simp at h
+
+/-- `translate(complete=False)`: the reported ORFs are exactly the ORFs at the positions
+`0 .. len-3`, in ascending order of the start position. -/
+theorem translateOrfs_spec (t : CodonTable) (ht : t.codons.length = 64) (code : List Nat)
+    (hc : ∀ c ∈ code, c < 4) (stopCode metCode : Nat) (metStart : Bool) :
+    translateOrfs t stopCode metCode metStart code =
+      .ok ((List.range (code.length - 2)).filterMap (orfAt t stopCode metCode metStart code)) := by
+  unfold translateOrfs
+  simp only [orfsFrame_eq t ht stopCode metCode metStart code hc]
+  congr 1
+  apply sortOrfs_eq_of_perm
+  · rw [← List.filterMap_append, ← List.filterMap_append]
+    exact (frames_perm code.length).filterMap _
+  · apply List.Pairwise.filterMap (R := (· < ·)) _ _ List.pairwise_lt_range
+    intro a a' haa' b hb b' hb'
+    rw [orfAt_start hb, orfAt_start hb']
+    exact haa'
+
+/-- What `uptoStop` keeps: a prefix without any stop before its last element, ending in the first
+stop if there is one (otherwise everything). -/
+theorem uptoStop_spec (stop : Nat) (ps : List Nat) :
+    ∃ rest, ps = uptoStop stop ps ++ rest ∧ (∀ p ∈ (uptoStop stop ps).dropLast, p ≠ stop) ∧
+      (stop ∈ ps → (uptoStop stop ps).getLast? = some stop) ∧ (stop ∉ ps → rest = []) := by
+  induction ps with
+  | nil => exact ⟨[], rfl, by simp [uptoStop], by simp, fun _ => rfl⟩
+  | cons p ps ih =>
+    by_cases hp : p = stop
+    · subst hp
+      exact ⟨ps, by simp [uptoStop], by simp [uptoStop], by simp [uptoStop], by simp⟩
+    · obtain ⟨rest, h1, h2, h3, h4⟩ := ih
+      refine ⟨rest, ?_, ?_, ?_, ?_⟩
+      · simp only [uptoStop, hp, if_false, List.cons_append]; rw [← h1]
+      · simp only [uptoStop, hp, if_false]
+        intro q hq
+        cases hu : uptoStop stop ps with
+        | nil => simp [hu] at hq
+        | cons u us =>
+          rw [hu, List.dropLast_cons_of_ne_nil (by simp)] at hq
+          rcases List.mem_cons.mp hq with rfl | hq
+          · exact hp
+          · exact h2 q (by rw [hu]; exact hq)
+      · intro hm
+        have hm' : stop ∈ ps := by
+          rcases List.mem_cons.mp hm with h | h
+          · exact absurd h.symm hp
+          · exact h
+        have := h3 hm'
+        simp only [uptoStop, hp, if_false]
+        cases hu : uptoStop stop ps with
+        | nil => simp [hu] at this
+        | cons u us => rw [hu] at this; simpa [List.getLast?_cons_cons] using this
+      · intro hm
+        exact h4 fun h => hm (List.mem_cons_of_mem _ h)
+
+/-! ### `CodonTable.__init__`: the 64-slot array holds the dict -/
+
+/-- Codon number and amino-acid code one `codon_dict` item is stored under. -/
+def entryNum (nuc prot : List Nat) (e : List Nat × Nat) : Except Err (Nat × Nat) :=
+  match encodeChars nuc e.1 with
+  | .error er => .error er
+  | .ok cc =>
+    match codonNumber cc with
+    | none => .error .valueError
+    | some m =>
+      match encode1 prot e.2 with
+      | .error er => .error er
+      | .ok a => .ok (m, a)
+
+theorem tableSet_eq (nuc prot : List Nat) (tbl : List (Option Nat)) (k : List Nat) (v : Nat) :
+    tableSet nuc prot tbl k v =
+      match entryNum nuc prot (k, v) with
+      | .ok (m, a) => .ok (tbl.set m (some a))
+      | .error e => .error e := by
+  unfold tableSet entryNum
+  cases encodeChars nuc k with
+  | error e => rfl
+  | ok cc =>
+    simp only
+    cases codonNumber cc with
+    | none => rfl
+    | some m =>
+      simp only
+      cases encode1 prot v <;> rfl
+
+theorem tableFill_cons_inv (nuc prot : List Nat) (tbl tbl' : List (Option Nat)) (e : List Nat × Nat)
+    (rest : List (List Nat × Nat)) (h : tableFill nuc prot tbl (e :: rest) = .ok tbl') :
+    ∃ m a, entryNum nuc prot e = .ok (m, a) ∧ tableFill nuc prot (tbl.set m (some a)) rest = .ok tbl' := by
+  obtain ⟨k, v⟩ := e
+  simp only [tableFill, tableSet_eq] at h
+  cases he : entryNum nuc prot (k, v) with
+  | error er => simp [he] at h
+  | ok ma =>
+    obtain ⟨m, a⟩ := ma
+    simp only [he] at h
+    exact ⟨m, a, rfl, h⟩
+
+theorem tableFill_length (nuc prot : List Nat) (tbl tbl' : List (Option Nat)) (dict : List (List Nat × Nat))
+    (h : tableFill nuc prot tbl dict = .ok tbl') : tbl'.length = tbl.length := by
+  induction dict generalizing tbl with
+  | nil => simp [tableFill] at h; subst h; rfl
+  | cons e rest ih =>
+    obtain ⟨m, a, _, h2⟩ := tableFill_cons_inv nuc prot tbl tbl' e rest h
+    rw [ih _ h2]; simp
+
+/-- A slot survives the remaining items if none of them is stored under the same number. -/
+theorem tableFill_keeps (nuc prot : List Nat) (tbl tbl' : List (Option Nat)) (dict : List (List Nat × Nat))
+    (h : tableFill nuc prot tbl dict = .ok tbl') (m : Nat) (x : Option Nat) (hx : tbl[m]? = some x)
+    (hd : ∀ e ∈ dict, ∀ m' a', entryNum nuc prot e = .ok (m', a') → m' ≠ m) : tbl'[m]? = some x := by
+  induction dict generalizing tbl with
+  | nil => simp [tableFill] at h; subst h; exact hx
+  | cons e rest ih =>
+    obtain ⟨m0, a0, he, h2⟩ := tableFill_cons_inv nuc prot tbl tbl' e rest h
+    have hne : m0 ≠ m := hd e (by simp) m0 a0 he
+    refine ih _ h2 ?_ fun e' he' => hd e' (by simp [he'])
+    rw [List.getElem?_set_ne hne]; exact hx
+
+/-- Every dict item is found in its slot when no two items share a codon number. -/
+theorem tableFill_get (nuc prot : List Nat) (tbl tbl' : List (Option Nat)) (dict : List (List Nat × Nat))
+    (h : tableFill nuc prot tbl dict = .ok tbl')
+    (hpw : dict.Pairwise fun e1 e2 => ∀ m1 a1 m2 a2, entryNum nuc prot e1 = .ok (m1, a1) →
+      entryNum nuc prot e2 = .ok (m2, a2) → m1 ≠ m2)
+    (e : List Nat × Nat) (he : e ∈ dict) (m a : Nat) (hea : entryNum nuc prot e = .ok (m, a))
+    (hm : m < tbl.length) : tbl'[m]? = some (some a) := by
+  induction dict generalizing tbl with
+  | nil => simp at he
+  | cons e0 rest ih =>
+    obtain ⟨m0, a0, he0, h2⟩ := tableFill_cons_inv nuc prot tbl tbl' e0 rest h
+    obtain ⟨hhead, htail⟩ := List.pairwise_cons.mp hpw
+    rcases List.mem_cons.mp he with rfl | her
+    · rw [hea] at he0
+      simp only [Except.ok.injEq, Prod.mk.injEq] at he0
+      obtain ⟨rfl, rfl⟩ := he0
+      refine tableFill_keeps nuc prot _ tbl' rest h2 m (some a) ?_ ?_
+      · rw [List.getElem?_set_self (by omega)]
+      · intro e' he' m' a' hea'
+        exact fun heq => hhead e' he' m a m' a' hea hea' heq.symm
+    · exact ih _ h2 htail her (by simpa using hm)
+
+theorem allSome_get (l : List (Option Nat)) (cs : List Nat) (h : allSome l = some cs) :
+    cs.length = l.length ∧ ∀ (m a : Nat), l[m]? = some (some a) → cs[m]? = some a := by
+  induction l generalizing cs with
+  | nil => simp [allSome] at h; subst h; simp
+  | cons x xs ih =>
+    cases x with
+    | none => simp [allSome] at h
+    | some v =>
+      simp only [allSome, Option.map_eq_some_iff] at h
+      obtain ⟨cs', hcs', rfl⟩ := h
+      obtain ⟨h1, h2⟩ := ih cs' hcs'
+      refine ⟨by simp [h1], ?_⟩
+      intro m a hm
+      cases m with
+      | zero => simpa using hm
+      | succ m => simpa using h2 m a (by simpa using hm)
+
+theorem codonTableNew_inv (nuc prot : List Nat) (dict : List (List Nat × Nat)) (starts : List (List Nat))
+    (t : CodonTable) (h : codonTableNew nuc prot dict starts = .ok t) :
+    ∃ tbl, tableFill nuc prot (List.replicate 64 none) dict = .ok tbl ∧ allSome tbl = some t.codons := by
+  unfold codonTableNew at h
+  split at h
+  · simp at h
+  · split at h
+    · simp at h
+    · split at h
+      · simp at h
+      · split at h
+        · simp at h
+        · split at h
+          · simp at h
+          · rename_i tbl htbl
+            split at h
+            · simp at h
+            · rename_i cs hcs
+              simp only [Except.ok.injEq] at h
+              subst h
+              exact ⟨tbl, htbl, hcs⟩
+
+/-! ### distinct codons are stored under distinct numbers -/
+
+theorem encodeChars_eq_encode (alph : List Nat) (hnd : alph.Nodup) (hlen : alph.length < 256) (syms : List Nat) :
+    encodeChars alph syms = encode alph syms := by
+  unfold encodeChars encode
+  exact mapE_congr _ _ _ fun s _ => encodeChars_elem alph hnd hlen s
+
+theorem encode_ok_inv {α : Type} [DecidableEq α] (alph : List α) (xs : List α) (cs : List Nat)
+    (h : encode alph xs = .ok cs) :
+    decode alph (cs.map Int.ofNat) = .ok xs ∧ (∀ c ∈ cs, c < alph.length) ∧ cs.length = xs.length := by
+  induction xs generalizing cs with
+  | nil => simp [encode, mapE] at h; subst h; exact ⟨rfl, by simp, rfl⟩
+  | cons x xs ih =>
+    obtain ⟨c, cs', hc, hcs', rfl⟩ := mapE_cons_inv _ _ _ _ h
+    obtain ⟨h1, h2, h3⟩ := ih cs' hcs'
+    have hi := encode1_ok_iff.mp hc
+    refine ⟨mapE_cons_ok _ _ _ _ _ (decode1_ofNat (indexOf?_some hi)) h1, ?_, by simp [h3]⟩
+    intro d hd
+    rcases List.mem_cons.mp hd with rfl | hd
+    · exact indexOf?_lt hi
+    · exact h2 d hd
+
+theorem codonNumber_inv (cc : List Nat) (m : Nat) (h : codonNumber cc = some m) :
+    ∃ a b c, cc = [a, b, c] ∧ m = 16 * a + 4 * b + c := by
+  match cc, h with
+  | [a, b, c], h => exact ⟨a, b, c, rfl, by simpa [codonNumber] using h.symm⟩
+
+theorem entryNum_inj (nuc prot : List Nat) (hnd : nuc.Nodup) (hn4 : nuc.length = 4)
+    (e1 e2 : List Nat × Nat) (m a1 a2 : Nat)
+    (h1 : entryNum nuc prot e1 = .ok (m, a1)) (h2 : entryNum nuc prot e2 = .ok (m, a2)) : e1.1 = e2.1 := by
+  have key : ∀ (e : List Nat × Nat) (a : Nat), entryNum nuc prot e = .ok (m, a) →
+      ∃ x y z, x < 4 ∧ y < 4 ∧ z < 4 ∧ m = 16 * x + 4 * y + z ∧
+        decode nuc ([x, y, z].map Int.ofNat) = .ok e.1 := by
+    intro e a h
+    unfold entryNum at h
+    cases hcc : encodeChars nuc e.1 with
+    | error er => simp [hcc] at h
+    | ok cc =>
+      simp only [hcc] at h
+      cases hm : codonNumber cc with
+      | none => simp [hm] at h
+      | some m' =>
+        simp only [hm] at h
+        cases hp : encode1 prot e.2 with
+        | error er => simp [hp] at h
+        | ok a' =>
+          simp only [hp, Except.ok.injEq, Prod.mk.injEq] at h
+          obtain ⟨rfl, _⟩ := h
+          obtain ⟨x, y, z, rfl, hmm⟩ := codonNumber_inv cc m' hm
+          rw [encodeChars_eq_encode nuc hnd (by omega)] at hcc
+          obtain ⟨hdec, hlt, _⟩ := encode_ok_inv nuc e.1 [x, y, z] hcc
+          exact ⟨x, y, z, by have := hlt x (by simp); omega, by have := hlt y (by simp); omega,
+            by have := hlt z (by simp); omega, hmm, hdec⟩
+  obtain ⟨x, y, z, hx, hy, hz, hm, hd⟩ := key e1 a1 h1
+  obtain ⟨x', y', z', hx', hy', hz', hm', hd'⟩ := key e2 a2 h2
+  have : x = x' ∧ y = y' ∧ z = z' := by omega
+  obtain ⟨rfl, rfl, rfl⟩ := this
+  rw [hd] at hd'
+  exact Except.ok.inj hd'
+
+theorem ih_helper (nuc prot : List Nat) (e0 : List Nat × Nat) (rest : List (List Nat × Nat))
+    (e : List Nat × Nat) (he : e ∈ e0 :: rest) (tbl0 tbl : List (Option Nat))
+    (h : tableFill nuc prot tbl0 (e0 :: rest) = .ok tbl) : ∃ m a, entryNum nuc prot e = .ok (m, a) := by
+  induction rest generalizing e0 tbl0 with
+  | nil =>
+    obtain ⟨m, a, hea, _⟩ := tableFill_cons_inv nuc prot tbl0 tbl e0 [] h
+    simp at he; subst he; exact ⟨m, a, hea⟩
+  | cons e1 rest ih =>
+    obtain ⟨m, a, hea, h2⟩ := tableFill_cons_inv nuc prot tbl0 tbl e0 (e1 :: rest) h
+    rcases List.mem_cons.mp he with rfl | her
+    · exact ⟨m, a, hea⟩
+    · exact ih e1 her _ h2
+
+/-- `CodonTable(codon_dict, starts)`: the table has 64 entries and looking up the encoded codon
+of any dict item gives the encoded amino acid of that item. -/
+theorem codonTableNew_lookup (nuc prot : List Nat) (hnd : nuc.Nodup) (hn4 : nuc.length = 4)
+    (dict : List (List Nat × Nat)) (hk : (dict.map (·.1)).Nodup) (starts : List (List Nat)) (t : CodonTable)
+    (h : codonTableNew nuc prot dict starts = .ok t) :
+    t.codons.length = 64 ∧
+    ∀ e ∈ dict, ∃ x y z a, encodeChars nuc e.1 = .ok [x, y, z] ∧ encode1 prot e.2 = .ok a ∧
+      lookupCodon t [x, y, z] = .ok a := by
+  obtain ⟨tbl, htbl, hall⟩ := codonTableNew_inv nuc prot dict starts t h
+  obtain ⟨hlen, hget⟩ := allSome_get tbl t.codons hall
+  have htl := tableFill_length nuc prot _ tbl dict htbl
+  refine ⟨by rw [hlen, htl]; simp, ?_⟩
+  have hpw : dict.Pairwise fun e1 e2 => ∀ m1 a1 m2 a2, entryNum nuc prot e1 = .ok (m1, a1) →
+      entryNum nuc prot e2 = .ok (m2, a2) → m1 ≠ m2 := by
+    have hk' : dict.Pairwise fun e1 e2 => e1.1 ≠ e2.1 := by
+      have := List.pairwise_map.mp hk
+      exact this
+    refine hk'.imp ?_
+    intro e1 e2 hne m1 a1 m2 a2 h1 h2 heq
+    subst heq
+    exact hne (entryNum_inj nuc prot hnd hn4 e1 e2 m1 a1 a2 h1 h2)
+  intro e he
+  -- the item was stored (the fill succeeded), so its number and code exist
+  have hex : ∃ m a, entryNum nuc prot e = .ok (m, a) := by
+    clear hpw hk
+    cases dict with
+    | nil => simp at he
+    | cons e0 rest => exact ih_helper nuc prot e0 rest e he _ tbl htbl
+  obtain ⟨m, a, hea⟩ := hex
+  -- m < 64
+  have hea' := hea
+  unfold entryNum at hea'
+  cases hcc : encodeChars nuc e.1 with
+  | error er => simp [hcc] at hea'
+  | ok cc =>
+    simp only [hcc] at hea'
+    cases hm : codonNumber cc with
+    | none => simp [hm] at hea'
+    | some m' =>
+      simp only [hm] at hea'
+      cases hp : encode1 prot e.2 with
+      | error er => simp [hp] at hea'
+      | ok a' =>
+        simp only [hp, Except.ok.injEq, Prod.mk.injEq] at hea'
+        obtain ⟨rfl, rfl⟩ := hea'
+        obtain ⟨x, y, z, rfl, hmm⟩ := codonNumber_inv cc m' hm
+        have hcc' := hcc
+        rw [encodeChars_eq_encode nuc hnd (by omega)] at hcc'
+        obtain ⟨_, hlt, _⟩ := encode_ok_inv nuc e.1 [x, y, z] hcc'
+        have hx := hlt x (by simp); have hy := hlt y (by simp); have hz := hlt z (by simp)
+        have hm64 : m' < (List.replicate 64 (none : Option Nat)).length := by simp; omega
+        have hslot := tableFill_get nuc prot _ tbl dict htbl hpw e he m' a' hea hm64
+        have hcs := hget m' a' hslot
+        refine ⟨x, y, z, a', rfl, rfl, ?_⟩
+        simp only [lookupCodon, hm, hcs]
+
+/-- Complete translation of a DNA string made of dict codons is the list of their dict values. -/
+theorem translate_eq_dict (nuc prot : List Nat) (hnd : nuc.Nodup) (hn4 : nuc.length = 4)
+    (dict : List (List Nat × Nat)) (hk : (dict.map (·.1)).Nodup) (starts : List (List Nat)) (t : CodonTable)
+    (h : codonTableNew nuc prot dict starts = .ok t) (items : List (List Nat × Nat))
+    (hsub : ∀ e ∈ items, e ∈ dict) :
+    ∃ code aas, encodeChars nuc (items.flatMap (·.1)) = .ok code ∧
+      mapE (encode1 prot) (items.map (·.2)) = .ok aas ∧ translateComplete t code = .ok aas := by
+  obtain ⟨_, hlook⟩ := codonTableNew_lookup nuc prot hnd hn4 dict hk starts t h
+  suffices hs : ∃ code aas, encodeChars nuc (items.flatMap (·.1)) = .ok code ∧
+      mapE (encode1 prot) (items.map (·.2)) = .ok aas ∧ code.length % 3 = 0 ∧
+      mapE (lookupCodon t) (chunk3 code) = .ok aas by
+    obtain ⟨code, aas, h1, h2, h3, h4⟩ := hs
+    exact ⟨code, aas, h1, h2, by simp [translateComplete, h3, mapCodonCodes, h4]⟩
+  induction items with
+  | nil => exact ⟨[], [], rfl, rfl, rfl, rfl⟩
+  | cons e rest ih =>
+    obtain ⟨code, aas, h1, h2, h3, h4⟩ := ih fun x hx => hsub x (by simp [hx])
+    obtain ⟨x, y, z, a, hxyz, ha, hl⟩ := hlook e (hsub e (by simp))
+    refine ⟨[x, y, z] ++ code, a :: aas, ?_, ?_, ?_, ?_⟩
+    · simp only [List.flatMap_cons]
+      unfold encodeChars at hxyz h1 ⊢
+      exact mapE_append _ _ _ _ _ hxyz h1
+    · simp only [List.map_cons]
+      exact mapE_cons_ok _ _ _ _ _ ha h2
+    · simp only [List.length_append, List.length_cons, List.length_nil]; omega
+    · show mapE (lookupCodon t) (chunk3 (x :: y :: z :: code)) = _
+      rw [chunk3]
+      exact mapE_cons_ok _ _ _ _ _ hl h4
+
+/-- `orfAt` unfolded: there is an ORF at `s` exactly when the three symbols at `s` form a start
+codon; it is then built from the complete in-frame translation from `s`. -/
+theorem orfAt_spec (t : CodonTable) (stopCode metCode : Nat) (metStart : Bool) (code : List Nat) (s : Nat) (o : Orf) :
+    orfAt t stopCode metCode metStart code s = some o ↔
+      ∃ a b c prot, (code.drop s).take 3 = [a, b, c] ∧ isStart t [a, b, c] = true ∧
+        protFrom t code s = .ok prot ∧ o = mkOrf stopCode metCode metStart s prot := by
+  unfold orfAt
+  match hl : code.drop s with
+  | a :: b :: c :: rest =>
+    have hch : chunk3 (a :: b :: c :: rest) = [a, b, c] :: chunk3 rest := by rw [chunk3]
+    rw [hch]
+    cases hp : protFrom t code s with
+    | error e => simp
+    | ok prot =>
+      simp only [List.take_succ_cons, List.take_zero]
+      by_cases hs : isStart t [a, b, c] = true
+      · simp only [hs, if_true, Option.some.injEq]
+        constructor
+        · intro h; exact ⟨a, b, c, prot, rfl, hs, rfl, h.symm⟩
+        · rintro ⟨a', b', c', prot', habc, _, hpp, rfl⟩
+          simp only [Except.ok.injEq] at hpp; subst hpp; rfl
+      · simp only [hs, Bool.false_eq_true, if_false]
+        constructor
+        · intro h; simp at h
+        · rintro ⟨a', b', c', prot', habc, hs', _, _⟩
+          simp only [List.cons.injEq, and_true] at habc
+          obtain ⟨rfl, rfl, rfl⟩ := habc
+          exact absurd hs' hs
+  | [] => simp [chunk3]
+  | [_] => simp [chunk3]
+  | [_, _] => simp [chunk3]
+
 end BiotiteModel.C03
